@@ -857,6 +857,17 @@ def gen_history(r, pool, max_ops=None):
     b = r.randrange(a + 1, len(ops) + 1)
     pj = r.choice(dep)
     ops.insert(b, ['compile', pj, r.choice(pool[pj]['preds'])])
+  # likewise for two programs that are compiled with one and the same flags dict
+  groups = {}
+  for i, q in enumerate(pool):
+    if q.get('share_flags'):
+      groups.setdefault(q['share_flags'], []).append(i)
+  for members in groups.values():
+    if len(members) >= 2 and r.random() < 0.5:
+      a, b = r.sample(members, 2)
+      pos = r.randrange(len(ops) + 1)
+      ops.insert(pos, ['compile', a, r.choice(pool[a]['preds'])])
+      ops.insert(r.randrange(pos + 1, len(ops) + 1), ['compile', b, 'G'])
   return ops
 
 
